@@ -6,7 +6,7 @@ def L(steps, init, cubes=0, opb=0, nv=2, actset=0, **kw):
     d = {'NV': nv, 'NVAL': 4, 'STEPS': steps, 'INIT': init, 'CUBES': cubes, 'OPB': opb, 'ACTSET': actset}
     d.update(kw); return d
 
-_life_quick = [L(3, 0), L(3, 1, 1), L(3, 2), L(3, 2, 2, 1), L(4, 1), L(3, 1, 0, 2, nv=3)]
+_life_quick = [L(3, 0), L(3, 1, 1), L(3, 2), L(3, 2, 2, 1), L(4, 1), L(3, 1, 0, 2, nv=3), L(3, 1, 3), L(3, 0, 3)]
 _life_thorough = _life_quick + [L(4, 0, 1), L(4, 2), L(4, 2, 2, 1), L(4, 1, 1, 2, nv=3), L(5, 1, _time=2500), L(5, 0, 1, _time=2500), L(5, 2, 2, 1, _time=2500)]
 _derive_quick = [L(2, 1, nv=3, actset=1), L(2, 2, nv=3, actset=1), L(3, 0, nv=3, actset=1), L(2, 2, 1, nv=3, actset=1)]
 _derive_thorough = _derive_quick + [L(3, 1, nv=3, actset=1), L(3, 2, nv=3, actset=1), L(3, 1, 1, nv=3, actset=1), L(3, 2, 2, nv=3, actset=1)]
@@ -15,7 +15,7 @@ CHECKS = {
  'C18': {
   'level': 'model_checking',
   'explanation': 'Drawn histories over three heap-allocated OndriksMTBDD<unsigned> handles that share sub-graphs (and share them with a diagram that outlives the history): per step one of construct from a cube / copy-construct or assign from another handle / self-assign / binary apply into a third or into an operand handle / destroy (harness life), plus Project, Rename, ExtendWith, GetMtbddForPrefix, unary and ternary apply and constant construction (harness derive), executed symbolically for all histories at once. After every step every live handle is read back on all assignments and compared with its shadow table, equal roots <=> equal shadows; the engine reports every use after free, double free and invalid free in the real reference-counting code; at the end the remaining handles are destroyed and the sizes of both unique tables (read-only hooks VerifLeafCacheSize / VerifInternalCacheSize) must equal the sizes recorded before the history, with the surviving diagram intact and re-constructible to the same root.',
-  'bounds': {'quick': 'histories of 3 (one universe: 4) steps with 8 actions x 3 target handles per step from 3 concrete start states (empty / two diagrams sharing a sub-graph / three diagrams incl. an apply result), 3 cube sets (shared internal node, different leaves, constants with different defaults), apply = plus mod 4 / max / xor, 2 or 3 variables; with the 16-action set: 2..3 steps over 3 variables (12..20 free bits per query)',
+  'bounds': {'quick': 'histories of 3 (one universe: 4) steps with 8 actions x 3 target handles per step from 3 concrete start states (empty / two diagrams sharing a sub-graph / three diagrams incl. an apply result), 4 cube sets (shared internal node, different leaves, constants with different defaults, an all-X cube whose unused default leaf is in use elsewhere), apply = plus mod 4 / max / xor, 2 or 3 variables; with the 16-action set: 2..3 steps over 3 variables (12..20 free bits per query)',
              'thorough': 'as quick plus 4-step histories from every start state, a 5-step universe and 3-step histories with the 16-action set from every start state'},
   'outside': 'more than 3 handles, histories longer than 5 steps, leaf types with their own resources (sets, vectors), diagrams over more than 3 variables, destruction order at process exit (static destruction of the unique tables is not executed)',
   'assumptions': ['handles are heap objects created with new and destroyed with delete by the harness; the temporaries returned by the apply functors are destroyed at the end of the full expression as in any client'],
